@@ -9,6 +9,7 @@ import (
 
 	"go.pennock.tech/tabular"
 	"go.pennock.tech/tabular/auto"
+	"go.pennock.tech/tabular/texttable"
 	"go.pennock.tech/tabular/texttable/decoration"
 )
 
@@ -20,7 +21,7 @@ func init() {
 		Level:     "model_checking",
 		Technique: "bounded exhaustive exploration of registry histories (sequences of application-registered decoration names) x every style string derived from the listing, on the real auto/texttable/decoration packages; oracle = the documented resolution rules",
 		Rule: "registry histories: every sequence of <=3 (thorough <=4) registrations over 9 name shapes (plain, upper-case, containing a dot, two dots, 'texttable.'-prefixed, colliding with a sub-package name in lower and upper case, empty, with trailing dot), each execution using names unique to it; " +
-			"after each history: ListStyles(); for EVERY listed name L every variant in {L, upper(L), title(L), texttable.L, L.x, L.x.y, TEXTTABLE.L} plus {texttable, texttable., nope, texttable.nope, '.'}: auto.New(variant), populate, Render, auto.Render; " +
+			"after each history: ListStyles(); for EVERY listed name L every variant in {L, upper(L), title(L), texttable.L, L.x, L.x.y, TEXTTABLE.L} plus {texttable, texttable., nope, texttable.nope, '.'}: auto.New(variant), populate, Render, auto.Render; plus auto.Wrap/auto.Render of tables that already are renderers (other decoration, failed style, custom decoration, csv) under plain styles - the style string decides; " +
 			"non-trivial = history with >=1 registration or a variant different from the listed name; distinct by (history shape, name kind, variant)",
 		Assumptions: []string{"case variants of decoration names are not asserted (case-insensitivity is promised for sub-package names only)",
 			"for a registered decoration whose name collides (case-insensitively) with a sub-package name, bare NAME may select either, provided it is accepted and renders",
@@ -237,6 +238,43 @@ func runC19(x *X) {
 			x.Nontrivial("unknown:" + v)
 			if ve == nil || vo != "" {
 				x.Fail("C19.default_and_unknown", append(tags, "unknown_name_rendered"), "unknown style %q rendered (%d bytes, err %v); it must fail with an error and no text", v, len(vo), ve)
+			}
+		}
+		// the style string decides, not what the table given to Wrap happens to be: wrapping an already decorated
+		// (or failed) text table with a plain style must give that style's output
+		x.Clause("C19.style_decides_not_the_wrapped_table")
+		_, light, _, pn2 := render("utf8-light")
+		if pn2 {
+			return
+		}
+		inners := []struct {
+			name string
+			mk   func() tabular.Table
+		}{
+			{"auto.New(ascii-simple)", func() tabular.Table { return auto.New("ascii-simple") }},
+			{"auto.New(unknown style)", func() tabular.Table { return auto.New("nope-" + serial) }},
+			{"texttable.New()+SetDecoration(custom)", func() tabular.Table { tt := texttable.New(); tt.SetDecoration(customDecoration()); return tt }},
+			{"auto.New(csv)", func() tabular.Table { return auto.New("csv") }},
+		}
+		for _, in := range inners {
+			for _, st := range []struct{ style, want string }{{"texttable", heavy}, {"TextTable", heavy}, {"utf8-light", light}, {"texttable.utf8-light", light}} {
+				t := in.mk()
+				c19Populate(t)
+				var out string
+				var err error
+				if p, val, site := Safe(func() { out, err = auto.Wrap(t, st.style).Render() }); p {
+					x.FailSite("C19.no_panic", append(tags, "panic"), site, "auto.Wrap(%s, %q).Render panicked: %v", in.name, st.style, val)
+					return
+				}
+				x.Nontrivial("wrap:" + in.name + st.style)
+				if err != nil || out != st.want {
+					x.Fail("C19.style_decides_not_the_wrapped_table", append(tags, "wrapping_an_existing_renderer"), "auto.Wrap(%s, %q).Render() gives (err %v)\n%s\nwant what the style %q gives on a core table:\n%s", in.name, st.style, err, out, st.style, st.want)
+				}
+				t2 := in.mk()
+				c19Populate(t2)
+				if o2, e2 := auto.Render(t2, st.style); e2 != nil || o2 != st.want {
+					x.Fail("C19.style_decides_not_the_wrapped_table", append(tags, "wrapping_an_existing_renderer"), "auto.Render(%s, %q) gives (err %v)\n%s\nwant\n%s", in.name, st.style, e2, o2, st.want)
+				}
 			}
 		}
 		x.State(fmt.Sprint(histKinds))
